@@ -638,6 +638,21 @@ fn main() {
             report(&mut sink, "parsed record", hexshort(b), r, json!({"kind":"parsed","input":hexs(b)}));
         }
     }
+    // (3b) hello values over the cross product of their fields (version x magic random x session id x cipher kind x
+    //      compression id x extension block), obtained by parsing and sent through the same laws
+    let s3b = par_run(run.threads, 64, |c, sink| {
+        for server in [true, false] {
+            for m in cat::hello_grid(server, false, thorough, c, 64) {
+                let b = cat::record(0x16, 0x0303, |w| { w.append(&m); }).buf;
+                if let Some(r) = check_parsed(&b) {
+                    sink.case(fnv(4, &b), true);
+                    sink.bump("hello grid values", 1);
+                    report(sink, "parsed record", hexshort(&b), r, json!({"kind":"parsed","input":hexs(&b)}));
+                }
+            }
+        }
+    });
+    sink.merge(s3b);
     // (4) extensions
     let el = ext_lists(thorough);
     let nel = el.len();
@@ -658,7 +673,7 @@ fn main() {
     cov.insert("parsed_records".into(), json!(nparsed));
     cov.insert("extension_lists".into(), json!(nel));
     cov.insert("rule".into(), json!(
-        "catalogue of serializable values (ClientHello over 7 versions x 4 session ids x 5 cipher lists incl. 32767 entries x 4 compression lists incl. 255 x 4 extension blocks incl. 65535 bytes; ServerHello 0300..0303 (SSLv3 without extensions); draft-18 ServerHello; ClientKeyExchange Unknown/Dh/Ecdh and Finished with bodies 0/1/2/255/256(/65535/70000); HelloRequest; ChangeCipherSpec), every one of the 14 unsupported message kinds and 25 unsupported extension variants; records of 1..3 small messages, all 65536 record versions; every parsed record of the C03 catalogue; SNI / max_fragment_length (all 256) / supported_groups (full sweep) singly and in lists. Laws: serialize succeeds, strict reference walker accepts the bytes (all length fields), the parser consumes them entirely and returns the value (two permitted normalisations), serialize(parse(bytes)) == bytes, unsupported -> NotYetImplemented. Non-trivial: every value"));
+        "catalogue of serializable values (ClientHello over 7 versions x 4 session ids x 5 cipher lists incl. 32767 entries x 4 compression lists incl. 255 x 4 extension blocks incl. 65535 bytes; ServerHello 0300..0303 (SSLv3 without extensions); draft-18 ServerHello; ClientKeyExchange Unknown/Dh/Ecdh and Finished with bodies 0/1/2/255/256(/65535/70000); HelloRequest; ChangeCipherSpec), every one of the 14 unsupported message kinds and 25 unsupported extension variants; records of 1..3 small messages, all 65536 record versions; every parsed record of the C03 catalogue; every hello of the field cross product (8 versions x 7 randoms incl. the HelloRetryRequest value x 2 session ids x 60 cipher kinds x 5 (thorough: 256) compression ids x 4 extension blocks) that parses; SNI / max_fragment_length (all 256) / supported_groups (full sweep) singly and in lists. Laws: serialize succeeds, strict reference walker accepts the bytes (all length fields), the parser consumes them entirely and returns the value (two permitted normalisations), serialize(parse(bytes)) == bytes, unsupported -> NotYetImplemented. Non-trivial: every value"));
     let code = run.finish(
         &sink,
         cov,
